@@ -21,7 +21,6 @@ if [ ! -f $V/.build/tokio-1.40.0/.patched ] || ! cmp -s $V/patches/tokio-verif-h
 fi
 
 # 2. Lock file: deltio's own, so every shared dependency is the version deltio ships with.
-cp /repo/Cargo.lock $V/harness/Cargo.lock.base
 if [ ! -f $V/harness/Cargo.lock ]; then cp /repo/Cargo.lock $V/harness/Cargo.lock; fi
 
 # 3. Build the engines.
